@@ -272,3 +272,67 @@ Proof.
   rewrite Hroots in R. clear -R.
   remember (RN id) as x. clear Heqx. induction R as [r Hin | pid pnd e R IH]; [contradiction | exact IH].
 Qed.
+
+(** ** cofactors, substitution, make_node *)
+Theorem ffi_equiv_cofactors : forall st dt de a t st' r,
+  lookup a (st_funs st) = Some (HVal t) -> step st (CCofactors dt de a) = Done (st', r) ->
+  r = match cofactors_of (st_kind st) (st_nv st) (st_l2v st) t with
+      | Some (ct, ce) => RetHH (HVal ct) (HVal ce)
+      | None => RetHH HInv HInv
+      end.
+Proof.
+  intros st dt de a t st' r Ea H. unfold step in H; cbv zeta in H. rewrite Ea in H. brh H. simpl in H.
+  destruct (cofactors_of (st_kind st) (st_nv st) (st_l2v st) t) as [[ct ce]|]; inversion H; reflexivity.
+Qed.
+
+Theorem ffi_equiv_cofactor : forall st hi d a t st' r,
+  lookup a (st_funs st) = Some (HVal t) -> step st (CCofactor hi d a) = Done (st', r) ->
+  r = match cofactors_of (st_kind st) (st_nv st) (st_l2v st) t with
+      | Some (ct, ce) => RetH (HVal (if hi then ct else ce))
+      | None => RetH HInv
+      end.
+Proof.
+  intros st hi d a t st' r Ea H. unfold step in H; cbv zeta in H. rewrite Ea in H. brh H. simpl in H.
+  destruct (cofactors_of (st_kind st) (st_nv st) (st_l2v st) t) as [[ct ce]|]; inversion H; reflexivity.
+Qed.
+
+(** the children returned are the Shannon cofactors w.r.t. the top variable (BDD / BCDD), resp.
+    subset1 / subset0 w.r.t. the top variable (ZBDD) *)
+Theorem cofactors_of_spec : forall k n l2v t ct ce,
+  cofactors_of k n l2v t = Some (ct, ce) ->
+  exists v, top_var n k l2v (fn n t) = Some v /\
+    (forall x, fn n ct x = child_s k (fn n t) v true (trunc n x)) /\
+    (forall x, fn n ce x = child_s k (fn n t) v false (trunc n x)).
+Proof.
+  intros k n l2v t ct ce H. unfold cofactors_of in H.
+  destruct (top_var n k l2v (fn n t)) as [v|]; [|discriminate H]. inversion H; subst.
+  exists v. split; [reflexivity|]. split; intros x; apply fn_tab.
+Qed.
+
+Theorem ffi_equiv_substitute : forall st d a s sb ta st' r,
+  lookup a (st_funs st) = Some (HVal ta) -> lookup s (st_subs st) = Some sb ->
+  step st (CSubstitute d a (Some s) false) = Done (st', r) ->
+  exists tr, r = RetH (HVal tr) /\
+    forall x, fn (st_nv st) tr x
+      = subst_s (combine (sb_vars sb) (map (fn (st_nv st)) (sb_reps sb))) (fn (st_nv st) ta) (trunc (st_nv st) x).
+Proof.
+  intros st d a s sb ta st' r Ea Es H. unfold step in H; cbv zeta in H. rewrite Ea, Es in H. brh H.
+  simpl in H. inversion H; subst. eexists. split; [reflexivity|]. intros x. apply rapi_subst.
+Qed.
+
+Theorem ffi_equiv_make_node : forall st d var hi lo tv th tl st' r,
+  lookup var (st_funs st) = Some (HVal tv) -> lookup hi (st_funs st) = Some (HVal th) ->
+  lookup lo (st_funs st) = Some (HVal tl) ->
+  step st (CMakeNode d var hi lo false) = Done (st', r) ->
+  exists v tr, singleton_var (st_nv st) tv = Some v /\ r = RetH (HVal tr) /\
+    (forall x, fn (st_nv st) tr x = mknode_s v (fn (st_nv st) th) (fn (st_nv st) tl) (trunc (st_nv st) x)) /\
+    (* hi and lo have left the client's ownership, var has not *)
+    st_funs st' = (d, HVal tr) :: remove_slot lo (remove_slot hi (st_funs st)).
+Proof.
+  intros st d var hi lo tv th tl st' r Ev Eh El H. unfold step in H; cbv zeta in H.
+  rewrite Ev, Eh, El in H. destruct (st_kind st); try discriminate H. brh H.
+  simpl c_get in H. cbv iota in H.
+  destruct (singleton_var (st_nv st) tv) as [v|]; [|discriminate H]. brh H. brh H. brh H.
+  simpl in H. inversion H; subst; clear H. exists v. eexists. split; [reflexivity|]. split; [reflexivity|].
+  split; [intros x; apply rapi_spec; reflexivity | reflexivity].
+Qed.
